@@ -1,29 +1,23 @@
 /-
-  C07, analytic layer: the gradient returned by the model is the true derivative.
+  C07, analytic layer, part 2: the gradient returned by the model is the true derivative.
 
-  `JaxContract f x jg`  : JAX's convention for a real-valued function of (complex) arguments,
-                          `d/dt f(x + t d)|₀ = Re Σ jgᵢ dᵢ` for every direction `d`
-  `IsGradAt f x g`      : the property C07 asks for, `d/dt f(x + t d)|₀ = Re⟪g, d⟫` for every `d`
+  `JaxContract f x jg`   : JAX's convention for a real-valued function of (complex) arguments,
+                           `d/dt f(x + t d)|₀ = Re Σ jgᵢ dᵢ` for every direction `d`
+  `IsGradAt f x g`       : the property C07 asks for, `d/dt f(x + t d)|₀ = Re⟪g, d⟫` for every `d`
+  `CurveContract f x jg` : the same along every differentiable curve through `x` (what a chain rule
+                           through a nonlinear operator needs)
 
-  Main result `Fn.jaxContract`: by induction over the functional expression (any nesting of
-  scaling, sums, separable blocks, losses composed with operators) the transcription `Fn.jaxGrad`
-  of JAX's rules satisfies the contract at every point of the smoothness domain `Fn.Smooth`,
-  hence (`conj_grad`) `Fn.grad` is the gradient.
+  Main result `Fn.curveContract`: by induction over the functional expression (any nesting of
+  scaling, sums, separable blocks, losses composed with linear *and nonlinear* operators) the
+  transcription `Fn.jaxGrad` of JAX's rules gives the derivative along every curve on which the
+  expression is smooth (`Fn.SmoothOn`); `Fn.jaxContract`/`Fn.isGradAt` are the special case of lines
+  at a point of the pointwise smoothness domain `Fn.Smooth`.
 -/
-import Scico.Proofs.AutogradWrap
-import Mathlib.Analysis.SpecialFunctions.Sqrt
-import Mathlib.Analysis.Calculus.Deriv.Add
-import Mathlib.Analysis.Calculus.Deriv.Mul
-import Mathlib.Analysis.Calculus.Deriv.Comp
-import Mathlib.Algebra.BigOperators.Field
+import Scico.Proofs.AutogradCurve
 
 namespace Scico.Autograd
 open Scico
 open scoped Topology
-
-noncomputable instance instHasSqrtReal : HasSqrt ℝ := ⟨Real.sqrt⟩
-
-theorem hasSqrt_real (r : ℝ) : (HasSqrt.sqrt r : ℝ) = Real.sqrt r := rfl
 
 variable {n m k : Nat}
 
@@ -35,6 +29,24 @@ def JaxContract (f : CVec ℝ n → ℝ) (x jg : CVec ℝ n) : Prop :=
 def IsGradAt (f : CVec ℝ n → ℝ) (x g : CVec ℝ n) : Prop :=
   ∀ d : CVec ℝ n, HasDerivAt (fun t : ℝ => f (along x d t)) (reInner g d) 0
 
+/-- the contract along every differentiable curve through `x` -/
+def CurveContract (f : CVec ℝ n → ℝ) (x jg : CVec ℝ n) : Prop :=
+  ∀ (c : ℝ → CVec ℝ n) (d : CVec ℝ n), c 0 = x → Tangent c d →
+    HasDerivAt (fun t : ℝ => f (c t)) (reBdot jg d) 0
+
+/-- `g` is the gradient of `f` at `x` along every differentiable curve through `x` -/
+def IsCurveGradAt (f : CVec ℝ n → ℝ) (x g : CVec ℝ n) : Prop :=
+  ∀ (c : ℝ → CVec ℝ n) (d : CVec ℝ n), c 0 = x → Tangent c d →
+    HasDerivAt (fun t : ℝ => f (c t)) (reInner g d) 0
+
+theorem CurveContract.jaxContract {f : CVec ℝ n → ℝ} {x jg : CVec ℝ n} (h : CurveContract f x jg) :
+    JaxContract f x jg :=
+  fun d => h (fun t => along x d t) d (along_zero x d) (tangent_along x d)
+
+theorem IsCurveGradAt.isGradAt {f : CVec ℝ n → ℝ} {x g : CVec ℝ n} (h : IsCurveGradAt f x g) :
+    IsGradAt f x g :=
+  fun d => h (fun t => along x d t) d (along_zero x d) (tangent_along x d)
+
 /-- conjugating JAX's gradient gives the gradient -/
 theorem conj_grad (f : CVec ℝ n → ℝ) (x jg : CVec ℝ n) (h : JaxContract f x jg) :
     IsGradAt f x (scicoGrad jg) := by
@@ -42,6 +54,13 @@ theorem conj_grad (f : CVec ℝ n → ℝ) (x jg : CVec ℝ n) (h : JaxContract 
   unfold scicoGrad
   rw [reInner_conjVec]
   exact h d
+
+theorem conj_grad_curve (f : CVec ℝ n → ℝ) (x jg : CVec ℝ n) (h : CurveContract f x jg) :
+    IsCurveGradAt f x (scicoGrad jg) := by
+  intro c d h0 hc
+  unfold scicoGrad
+  rw [reInner_conjVec]
+  exact h c d h0 hc
 
 /-- and without the conjugate the pairing `Re⟪·,·⟫` would be wrong by the sign of the imaginary parts -/
 theorem reInner_sub_reBdot (jg d : CVec ℝ n) :
@@ -51,44 +70,31 @@ theorem reInner_sub_reBdot (jg d : CVec ℝ n) :
 
 /-! ### one-dimensional building blocks -/
 
-/-- change the function pointwise and the derivative value -/
-theorem HasDerivAt.congr' {f g : ℝ → ℝ} {f' g' x : ℝ} (h : HasDerivAt f f' x) (hf : ∀ t, g t = f t)
-    (hd : f' = g') : HasDerivAt g g' x := by
-  have : g = f := funext hf
-  rw [this]; exact h.congr_deriv hd
+/-- the pairing `2 Re(conj z · e)` that every derivative below is made of -/
+def pair2 (z e : Cx ℝ) : ℝ := 2 * (z.re * e.re + z.im * e.im)
 
-theorem hasDerivAt_lin (a b : ℝ) : HasDerivAt (fun t : ℝ => a + t * b) b 0 :=
-  HasDerivAt.congr' (((hasDerivAt_id (0 : ℝ)).mul_const b).const_add a) (fun _ => rfl) (one_mul b)
-
-theorem along_re (x d : CVec ℝ n) (t : ℝ) (i : Fin n) : (along x d t i).re = (x i).re + t * (d i).re := rfl
-theorem along_im (x d : CVec ℝ n) (t : ℝ) (i : Fin n) : (along x d t i).im = (x i).im + t * (d i).im := rfl
-
-/-- `d/dt |z + t e|² = 2 Re(conj z · e)` -/
 theorem hasDerivAt_abs2 (z e : Cx ℝ) :
     HasDerivAt (fun t : ℝ => Cx.abs2 (z + Cx.smul t e)) (2 * (z.re * e.re + z.im * e.im)) 0 := by
-  have h1 := (hasDerivAt_lin z.re e.re).mul (hasDerivAt_lin z.re e.re)
-  have h2 := (hasDerivAt_lin z.im e.im).mul (hasDerivAt_lin z.im e.im)
-  have h := h1.add h2
+  have hz : CTangent (fun t => z + Cx.smul t e) e :=
+    ⟨hasDerivAt_lin z.re e.re, hasDerivAt_lin z.im e.im⟩
+  have h := hz.abs2
   refine HasDerivAt.congr' h (fun _ => rfl) ?_
-  ring
-
-theorem hasDerivAt_abs2_along (x d : CVec ℝ n) (i : Fin n) :
-    HasDerivAt (fun t : ℝ => Cx.abs2 (along x d t i))
-      (2 * ((x i).re * (d i).re + (x i).im * (d i).im)) 0 :=
-  hasDerivAt_abs2 (x i) (d i)
+  simp
 
 theorem abs2_nonneg (z : Cx ℝ) : 0 ≤ Cx.abs2 z := by
   unfold Cx.abs2; nlinarith [mul_self_nonneg z.re, mul_self_nonneg z.im]
 
-theorem along_zero (x d : CVec ℝ n) : along x d 0 = x := by
-  funext i; apply Cx.ext' <;> simp [along]
+theorem hasDerivAt_abs2_curve {c : ℝ → CVec ℝ n} {d : CVec ℝ n} (hc : Tangent c d) (i : Fin n) :
+    HasDerivAt (fun t : ℝ => Cx.abs2 (c t i))
+      (2 * ((c 0 i).re * (d i).re + (c 0 i).im * (d i).im)) 0 :=
+  (hc i).abs2
 
-/-- `d/dt Σ|xᵢ + t dᵢ|²` -/
-theorem hasDerivAt_sumAbs2 (x d : CVec ℝ n) :
-    HasDerivAt (fun t : ℝ => sumAbs2 (along x d t))
-      (∑ i, 2 * ((x i).re * (d i).re + (x i).im * (d i).im)) 0 := by
+/-- `d/dt Σ|cᵢ(t)|²` -/
+theorem hasDerivAt_sumAbs2 {c : ℝ → CVec ℝ n} {d : CVec ℝ n} (hc : Tangent c d) :
+    HasDerivAt (fun t : ℝ => sumAbs2 (c t))
+      (∑ i, 2 * ((c 0 i).re * (d i).re + (c 0 i).im * (d i).im)) 0 := by
   simp only [sumAbs2_eq]
-  exact HasDerivAt.fun_sum (fun i _ => hasDerivAt_abs2_along x d i)
+  exact HasDerivAt.fun_sum (fun i _ => hasDerivAt_abs2_curve hc i)
 
 theorem sumAbs2_nonneg (x : CVec ℝ n) : 0 ≤ sumAbs2 x := by
   rw [sumAbs2_eq]; exact Finset.sum_nonneg (fun i _ => abs2_nonneg _)
@@ -96,13 +102,19 @@ theorem sumAbs2_nonneg (x : CVec ℝ n) : 0 ≤ sumAbs2 x := by
 theorem groupAbs2_eq {k : Nat} (grp : Fin n → Fin k) (x : CVec ℝ n) (g : Fin k) :
     groupAbs2 grp x g = ∑ i, if grp i = g then Cx.abs2 (x i) else 0 := vsum_eq _
 
-theorem hasDerivAt_groupAbs2 {k : Nat} (grp : Fin n → Fin k) (x d : CVec ℝ n) (g : Fin k) :
-    HasDerivAt (fun t : ℝ => groupAbs2 grp (along x d t) g)
-      (∑ i, if grp i = g then 2 * ((x i).re * (d i).re + (x i).im * (d i).im) else 0) 0 := by
+theorem groupAbs2_nonneg {k : Nat} (grp : Fin n → Fin k) (x : CVec ℝ n) (g : Fin k) :
+    0 ≤ groupAbs2 grp x g := by
+  rw [groupAbs2_eq]
+  exact Finset.sum_nonneg (fun i _ => by split <;> [exact abs2_nonneg _; exact le_refl _])
+
+theorem hasDerivAt_groupAbs2 {k : Nat} (grp : Fin n → Fin k) {c : ℝ → CVec ℝ n} {d : CVec ℝ n}
+    (hc : Tangent c d) (g : Fin k) :
+    HasDerivAt (fun t : ℝ => groupAbs2 grp (c t) g)
+      (∑ i, if grp i = g then 2 * ((c 0 i).re * (d i).re + (c 0 i).im * (d i).im) else 0) 0 := by
   simp only [groupAbs2_eq]
   refine HasDerivAt.fun_sum (fun i _ => ?_)
   by_cases h : grp i = g
-  · simp only [h, if_true]; exact hasDerivAt_abs2_along x d i
+  · simp only [h, if_true]; exact hasDerivAt_abs2_curve hc i
   · simp only [h, if_false]; exact hasDerivAt_const _ _
 
 /-! ### the Huber function of the modulus, including the kink -/
@@ -188,16 +200,15 @@ theorem hasDerivAt_huber_comp {δ : ℝ} (hδ : 0 < δ) {S : ℝ → ℝ} {S' : 
       rw [huberOf_real, if_pos ht]
     exact h1.congr_deriv (by ring)
 
-/-! ### the smoothness domain -/
+/-! ### the smoothness domains -/
 
-/-- where the functional is differentiable *and* JAX's rules produce finite numbers -/
+/-- where the functional is differentiable *and* JAX's rules produce finite numbers (pointwise) -/
 def Fn.Smooth : {n : Nat} → Fn ℝ n → CVec ℝ n → Prop
   | _, .zero, _ => True
   | _, .sqL2, _ => True
   | _, .l2, x => sumAbs2 x ≠ 0
   | _, .l1, x => ∀ i, Cx.abs2 (x i) ≠ 0
-  | _, .huber δ true, _ => 0 < δ
-  | _, .huber δ false, _ => 0 < δ
+  | _, .huber δ _, _ => 0 < δ
   | _, .l1ml2 _, x => (∀ i, Cx.abs2 (x i) ≠ 0) ∧ sumAbs2 x ≠ 0
   | _, .l21 _ grp, x => ∀ g, groupAbs2 grp x g ≠ 0
   | _, .scaled _ f, x => f.Smooth x
@@ -206,30 +217,84 @@ def Fn.Smooth : {n : Nat} → Fn ℝ n → CVec ℝ n → Prop
   | _, .loss _ A y f, x => f.Smooth (vsub (mulVec A x) y)
   | _, .sqL2Loss _ _ _ _, _ => True
   | _, .sqL2SqAbsLoss _ _ _ _, _ => True
+  | _, .sqL2AbsLoss _ A _ _, x => ∀ i, Cx.abs2 (mulVec A x i) ≠ 0
+  | _, .poisson _ A _ _, x => ∀ i, 0 < (mulVec A x i).re
+  | _, .lossOp _ F y f, x => f.Smooth (vsub (F.eval x) y)
+  | _, .sqL2LossOp _ _ _ _, _ => True
 
-/-! ### base cases -/
+/-- smoothness *along a curve*: the pointwise conditions at `c 0`, except that a group of the
+    `L21Norm` may vanish at `c 0` provided it vanishes identically along the curve (structural
+    zeros, e.g. the zero-padded boundary differences of a non-circular TV norm — there the guarded
+    `_l2norm` contributes the constant 0 and a zero gradient) -/
+def Fn.SmoothOn : {n : Nat} → Fn ℝ n → (ℝ → CVec ℝ n) → Prop
+  | _, .zero, _ => True
+  | _, .sqL2, _ => True
+  | _, .l2, c => sumAbs2 (c 0) ≠ 0
+  | _, .l1, c => ∀ i, Cx.abs2 (c 0 i) ≠ 0 ∨ ∀ t, Cx.abs2 (c t i) = 0
+  | _, .huber δ _, _ => 0 < δ
+  | _, .l1ml2 _, c => (∀ i, Cx.abs2 (c 0 i) ≠ 0) ∧ sumAbs2 (c 0) ≠ 0
+  | _, .l21 _ grp, c => ∀ g, groupAbs2 grp (c 0) g ≠ 0 ∨ ∀ t, groupAbs2 grp (c t) g = 0
+  | _, .scaled _ f, c => f.SmoothOn c
+  | _, .add f g, c => f.SmoothOn c ∧ g.SmoothOn c
+  | _, .sep f g, c => f.SmoothOn (fun t => vleft (c t)) ∧ g.SmoothOn (fun t => vright (c t))
+  | _, .loss _ A y f, c => f.SmoothOn (fun t => vsub (mulVec A (c t)) y)
+  | _, .sqL2Loss _ _ _ _, _ => True
+  | _, .sqL2SqAbsLoss _ _ _ _, _ => True
+  | _, .sqL2AbsLoss _ A _ _, c => ∀ i, Cx.abs2 (mulVec A (c 0) i) ≠ 0
+  | _, .poisson _ A _ _, c => ∀ i, 0 < (mulVec A (c 0) i).re
+  | _, .lossOp _ F y f, c => f.SmoothOn (fun t => vsub (F.eval (c t)) y)
+  | _, .sqL2LossOp _ _ _ _, _ => True
 
-theorem contract_zero (x : CVec ℝ n) : JaxContract (Fn.zero : Fn ℝ n).eval x ((Fn.zero : Fn ℝ n).jaxGrad x) := by
-  intro d
+/-- a point of the pointwise domain is smooth along every curve through it -/
+theorem Fn.smoothOn_of_smooth : ∀ {n : Nat} (f : Fn ℝ n) (c : ℝ → CVec ℝ n), f.Smooth (c 0) → f.SmoothOn c := by
+  intro n f
+  induction f with
+  | zero => intro c h; trivial
+  | sqL2 => intro c h; trivial
+  | l2 => intro c h; exact h
+  | l1 => intro c h i; exact Or.inl (h i)
+  | huber δ sep => intro c h; exact h
+  | l1ml2 β => intro c h; exact h
+  | l21 k grp => intro c h g; exact Or.inl (h g)
+  | scaled a f ih => intro c h; exact ih c h
+  | add f g ihf ihg => intro c h; exact ⟨ihf c h.1, ihg c h.2⟩
+  | sep f g ihf ihg => intro c h; exact ⟨ihf _ h.1, ihg _ h.2⟩
+  | loss s A y f ih => intro c h; exact ih _ h
+  | sqL2Loss s A y w => intro c h; trivial
+  | sqL2SqAbsLoss s A y w => intro c h; trivial
+  | sqL2AbsLoss s A y w => intro c h; exact h
+  | poisson s A y cst => intro c h; exact h
+  | lossOp s F y f ih => intro c h; exact ih _ h
+  | sqL2LossOp s F y w => intro c h; trivial
+
+
+/-! ### base cases (along curves) -/
+
+/-- the statement proved for every constructor: derivative along a curve -/
+def DerivOn (f : CVec ℝ n → ℝ) (jg : CVec ℝ n → CVec ℝ n) (c : ℝ → CVec ℝ n) (d : CVec ℝ n) : Prop :=
+  HasDerivAt (fun t : ℝ => f (c t)) (reBdot (jg (c 0)) d) 0
+
+theorem deriv_zero {c : ℝ → CVec ℝ n} {d : CVec ℝ n} :
+    DerivOn (Fn.zero : Fn ℝ n).eval (Fn.zero : Fn ℝ n).jaxGrad c d := by
+  unfold DerivOn
   simp only [Fn.eval, Fn.jaxGrad]
   have : reBdot (fun _ => (0 : Cx ℝ)) d = 0 := by rw [reBdot_eq]; simp
   rw [this]
   exact hasDerivAt_const _ _
 
-theorem contract_sqL2 (x : CVec ℝ n) : JaxContract (Fn.sqL2 : Fn ℝ n).eval x ((Fn.sqL2 : Fn ℝ n).jaxGrad x) := by
-  intro d
+theorem deriv_sqL2 {c : ℝ → CVec ℝ n} {d : CVec ℝ n} (hc : Tangent c d) :
+    DerivOn (Fn.sqL2 : Fn ℝ n).eval (Fn.sqL2 : Fn ℝ n).jaxGrad c d := by
+  unfold DerivOn
   simp only [Fn.eval, Fn.jaxGrad]
-  refine (hasDerivAt_sumAbs2 x d).congr_deriv ?_
+  refine (hasDerivAt_sumAbs2 hc).congr_deriv ?_
   rw [reBdot_eq]
   refine Finset.sum_congr rfl (fun i _ => ?_)
   simp [two_eq]; ring
 
-theorem hasDerivAt_norm2 (x d : CVec ℝ n) (hx : sumAbs2 x ≠ 0) :
-    HasDerivAt (fun t : ℝ => norm2 (along x d t))
-      ((∑ i, 2 * ((x i).re * (d i).re + (x i).im * (d i).im)) / (2 * norm2 x)) 0 := by
-  have h := (hasDerivAt_sumAbs2 x d).sqrt (by rw [along_zero]; exact hx)
-  rw [along_zero] at h
-  exact h
+theorem hasDerivAt_norm2 {c : ℝ → CVec ℝ n} {d : CVec ℝ n} (hc : Tangent c d) (hx : sumAbs2 (c 0) ≠ 0) :
+    HasDerivAt (fun t : ℝ => norm2 (c t))
+      ((∑ i, 2 * ((c 0 i).re * (d i).re + (c 0 i).im * (d i).im)) / (2 * norm2 (c 0))) 0 :=
+  (hasDerivAt_sumAbs2 hc).sqrt hx
 
 theorem norm2_ne_zero (x : CVec ℝ n) (hx : sumAbs2 x ≠ 0) : norm2 x ≠ 0 := by
   unfold norm2
@@ -255,69 +320,82 @@ theorem reBdot_sub_smul (β : ℝ) (g h d : CVec ℝ n) :
   simp
   ring
 
-theorem contract_l2 (x : CVec ℝ n) (hx : sumAbs2 x ≠ 0) :
-    JaxContract (Fn.l2 : Fn ℝ n).eval x ((Fn.l2 : Fn ℝ n).jaxGrad x) := by
-  intro d
+theorem deriv_l2 {c : ℝ → CVec ℝ n} {d : CVec ℝ n} (hc : Tangent c d) (hx : sumAbs2 (c 0) ≠ 0) :
+    DerivOn (Fn.l2 : Fn ℝ n).eval (Fn.l2 : Fn ℝ n).jaxGrad c d := by
+  unfold DerivOn
   simp only [Fn.eval, Fn.jaxGrad]
   rw [reBdot_l2]
-  exact hasDerivAt_norm2 x d hx
+  exact hasDerivAt_norm2 hc hx
 
-theorem hasDerivAt_abs_along (x d : CVec ℝ n) (i : Fin n) (hx : Cx.abs2 (x i) ≠ 0) :
-    HasDerivAt (fun t : ℝ => Cx.abs (along x d t i))
-      ((2 * ((x i).re * (d i).re + (x i).im * (d i).im)) / (2 * Cx.abs (x i))) 0 := by
-  have h := (hasDerivAt_abs2_along x d i).sqrt (by rw [along_zero]; exact hx)
-  rw [along_zero] at h
-  exact h
+theorem abs_pos_of_abs2 (z : Cx ℝ) (h : Cx.abs2 z ≠ 0) : 0 < Cx.abs z := by
+  unfold Cx.abs; rw [hasSqrt_real]
+  exact Real.sqrt_pos.mpr (lt_of_le_of_ne (abs2_nonneg z) (Ne.symm h))
 
-theorem reBdot_l1 (x d : CVec ℝ n) :
-    reBdot (fun i => Cx.divr (x i).conj (Cx.abs (x i))) d =
-      ∑ i, (2 * ((x i).re * (d i).re + (x i).im * (d i).im)) / (2 * Cx.abs (x i)) := by
-  rw [reBdot_eq]
-  refine Finset.sum_congr rfl (fun i _ => ?_)
-  simp only [Cx.divr_re, Cx.divr_im, Cx.conj_re, Cx.conj_im]
-  exact coord_div _ _ _ _ _
+theorem absGrad_of_ne (z : Cx ℝ) (h : Cx.abs2 z ≠ 0) : absGrad z = Cx.divr z.conj (Cx.abs z) := by
+  unfold absGrad; rw [if_pos (abs_pos_of_abs2 z h)]
 
-theorem hasDerivAt_l1 (x d : CVec ℝ n) (hx : ∀ i, Cx.abs2 (x i) ≠ 0) :
-    HasDerivAt (fun t : ℝ => Vec.sum (fun i => Cx.abs (along x d t i)))
-      (∑ i, (2 * ((x i).re * (d i).re + (x i).im * (d i).im)) / (2 * Cx.abs (x i))) 0 := by
+theorem absGrad_of_zero (z : Cx ℝ) (h : Cx.abs2 z = 0) : absGrad z = 0 := by
+  unfold absGrad Cx.abs; rw [h, hasSqrt_real, Real.sqrt_zero, if_neg (lt_irrefl _)]
+
+/-- `|cᵢ(t)|` where `cᵢ(0) ≠ 0`, or where the entry vanishes identically along the curve -/
+theorem hasDerivAt_abs_curve {c : ℝ → CVec ℝ n} {d : CVec ℝ n} (hc : Tangent c d) (i : Fin n)
+    (hx : Cx.abs2 (c 0 i) ≠ 0 ∨ ∀ t, Cx.abs2 (c t i) = 0) :
+    HasDerivAt (fun t : ℝ => Cx.abs (c t i))
+      ((absGrad (c 0 i)).re * (d i).re - (absGrad (c 0 i)).im * (d i).im) 0 := by
+  rcases hx with hne | hz
+  · have h := (hasDerivAt_abs2_curve hc i).sqrt hne
+    refine HasDerivAt.congr' h (fun _ => rfl) ?_
+    rw [absGrad_of_ne _ hne]
+    simp only [Cx.divr_re, Cx.divr_im, Cx.conj_re, Cx.conj_im]
+    exact (coord_div _ _ _ _ _).symm
+  · rw [absGrad_of_zero _ (hz 0)]
+    have : (fun t : ℝ => Cx.abs (c t i)) = fun _ => 0 := by
+      funext t; unfold Cx.abs; rw [hz t, hasSqrt_real, Real.sqrt_zero]
+    rw [this]
+    simp only [Cx.zero_re, Cx.zero_im, zero_mul, sub_zero]
+    exact hasDerivAt_const _ _
+
+theorem hasDerivAt_l1 {c : ℝ → CVec ℝ n} {d : CVec ℝ n} (hc : Tangent c d)
+    (hx : ∀ i, Cx.abs2 (c 0 i) ≠ 0 ∨ ∀ t, Cx.abs2 (c t i) = 0) :
+    HasDerivAt (fun t : ℝ => Vec.sum (fun i => Cx.abs (c t i)))
+      (reBdot (fun i => absGrad (c 0 i)) d) 0 := by
   simp only [vsum_eq]
-  exact HasDerivAt.fun_sum (fun i _ => hasDerivAt_abs_along x d i (hx i))
+  rw [reBdot_eq]
+  exact HasDerivAt.fun_sum (fun i _ => hasDerivAt_abs_curve hc i (hx i))
 
-theorem contract_l1 (x : CVec ℝ n) (hx : ∀ i, Cx.abs2 (x i) ≠ 0) :
-    JaxContract (Fn.l1 : Fn ℝ n).eval x ((Fn.l1 : Fn ℝ n).jaxGrad x) := by
-  intro d
+theorem deriv_l1 {c : ℝ → CVec ℝ n} {d : CVec ℝ n} (hc : Tangent c d)
+    (hx : ∀ i, Cx.abs2 (c 0 i) ≠ 0 ∨ ∀ t, Cx.abs2 (c t i) = 0) :
+    DerivOn (Fn.l1 : Fn ℝ n).eval (Fn.l1 : Fn ℝ n).jaxGrad c d := by
+  unfold DerivOn
   simp only [Fn.eval, Fn.jaxGrad]
-  rw [reBdot_l1]
-  exact hasDerivAt_l1 x d hx
+  exact hasDerivAt_l1 hc hx
 
-theorem contract_l1ml2 (β : ℝ) (x : CVec ℝ n) (hx : ∀ i, Cx.abs2 (x i) ≠ 0) (hx2 : sumAbs2 x ≠ 0) :
-    JaxContract (Fn.l1ml2 β : Fn ℝ n).eval x ((Fn.l1ml2 β : Fn ℝ n).jaxGrad x) := by
-  intro d
+theorem deriv_l1ml2 (β : ℝ) {c : ℝ → CVec ℝ n} {d : CVec ℝ n} (hc : Tangent c d)
+    (hx : ∀ i, Cx.abs2 (c 0 i) ≠ 0) (hx2 : sumAbs2 (c 0) ≠ 0) :
+    DerivOn (Fn.l1ml2 β : Fn ℝ n).eval (Fn.l1ml2 β : Fn ℝ n).jaxGrad c d := by
+  unfold DerivOn
   simp only [Fn.eval, Fn.jaxGrad]
-  have h := (hasDerivAt_l1 x d hx).sub ((hasDerivAt_norm2 x d hx2).const_mul β)
+  have h := (hasDerivAt_l1 hc (fun i => Or.inl (hx i))).sub ((hasDerivAt_norm2 hc hx2).const_mul β)
   refine HasDerivAt.congr' h (fun _ => rfl) ?_
-  rw [← reBdot_l1, ← reBdot_l2, reBdot_sub_smul]
+  rw [← reBdot_l2, reBdot_sub_smul]
 
-theorem contract_huber_sep (δ : ℝ) (hδ : 0 < δ) (x : CVec ℝ n) :
-    JaxContract (Fn.huber δ true : Fn ℝ n).eval x ((Fn.huber δ true : Fn ℝ n).jaxGrad x) := by
-  intro d
+theorem deriv_huber_sep (δ : ℝ) (hδ : 0 < δ) {c : ℝ → CVec ℝ n} {d : CVec ℝ n} (hc : Tangent c d) :
+    DerivOn (Fn.huber δ true : Fn ℝ n).eval (Fn.huber δ true : Fn ℝ n).jaxGrad c d := by
+  unfold DerivOn
   simp only [Fn.eval, Fn.jaxGrad, vsum_eq]
-  have hi : ∀ i : Fin n, HasDerivAt (fun t : ℝ => huberOf δ (Cx.abs (along x d t i)))
-      ((if δ < Cx.abs (x i) then δ / (2 * Cx.abs (x i)) else 1 / 2)
-        * (2 * ((x i).re * (d i).re + (x i).im * (d i).im))) 0 := by
-    intro i
-    have h := hasDerivAt_huber_comp hδ (hasDerivAt_abs2_along x d i) (fun t => abs2_nonneg _)
-    rw [along_zero] at h
-    exact h
+  have hi : ∀ i : Fin n, HasDerivAt (fun t : ℝ => huberOf δ (Cx.abs (c t i)))
+      ((if δ < Cx.abs (c 0 i) then δ / (2 * Cx.abs (c 0 i)) else 1 / 2)
+        * (2 * ((c 0 i).re * (d i).re + (c 0 i).im * (d i).im))) 0 := fun i =>
+    hasDerivAt_huber_comp hδ (hasDerivAt_abs2_curve hc i) (fun t => abs2_nonneg _)
   refine HasDerivAt.congr' (HasDerivAt.fun_sum (fun i _ => hi i)) (fun _ => rfl) ?_
   rw [reBdot_eq]
   refine Finset.sum_congr rfl (fun i _ => ?_)
-  by_cases hc : δ < Cx.abs (x i)
-  · simp only [hc, if_true, Cx.smul_re, Cx.smul_im, Cx.divr_re, Cx.divr_im, Cx.conj_re, Cx.conj_im]
-    have hne : Cx.abs (x i) ≠ 0 := (lt_trans hδ hc).ne'
+  by_cases hcd : δ < Cx.abs (c 0 i)
+  · simp only [hcd, if_true, Cx.smul_re, Cx.smul_im, Cx.divr_re, Cx.divr_im, Cx.conj_re, Cx.conj_im]
+    have hne : Cx.abs (c 0 i) ≠ 0 := (lt_trans hδ hcd).ne'
     field_simp
     ring
-  · simp only [hc, if_false, Cx.conj_re, Cx.conj_im]
+  · simp only [hcd, if_false, Cx.conj_re, Cx.conj_im]
     ring
 
 theorem huberNonsepOf_eq (δ s : ℝ) (hs : 0 ≤ s) : huberNonsepOf δ s = huberOf δ (Real.sqrt s) := by
@@ -326,22 +404,21 @@ theorem huberNonsepOf_eq (δ s : ℝ) (hs : 0 ≤ s) : huberNonsepOf δ s = hube
 
 /-- non-separable Huber norm (code after the repair): JAX's rules give the gradient at EVERY point,
     `‖x‖ = δ` and `x = 0` included -/
-theorem contract_huber_nonsep (δ : ℝ) (hδ : 0 < δ) (x : CVec ℝ n) :
-    JaxContract (Fn.huber δ false : Fn ℝ n).eval x ((Fn.huber δ false : Fn ℝ n).jaxGrad x) := by
-  intro d
+theorem deriv_huber_nonsep (δ : ℝ) (hδ : 0 < δ) {c : ℝ → CVec ℝ n} {d : CVec ℝ n} (hc : Tangent c d) :
+    DerivOn (Fn.huber δ false : Fn ℝ n).eval (Fn.huber δ false : Fn ℝ n).jaxGrad c d := by
+  unfold DerivOn
   simp only [Fn.eval, Fn.jaxGrad]
-  have h := hasDerivAt_huber_comp hδ (hasDerivAt_sumAbs2 x d) (fun t => sumAbs2_nonneg _)
-  rw [along_zero] at h
+  have h := hasDerivAt_huber_comp hδ (hasDerivAt_sumAbs2 hc) (fun t => sumAbs2_nonneg _)
   refine HasDerivAt.congr' h (fun t => huberNonsepOf_eq δ _ (sumAbs2_nonneg _)) ?_
   rw [reBdot_eq, Finset.mul_sum]
   refine Finset.sum_congr rfl (fun i _ => ?_)
-  show (if δ < norm2 x then δ / (2 * norm2 x) else 1 / 2) * _ = _
-  by_cases hc : δ < norm2 x
-  · have hn : norm2 x ≠ 0 := (lt_trans hδ hc).ne'
-    simp only [hc, if_true, Cx.smul_re, Cx.smul_im, Cx.divr_re, Cx.divr_im, Cx.conj_re, Cx.conj_im]
+  show (if δ < norm2 (c 0) then δ / (2 * norm2 (c 0)) else 1 / 2) * _ = _
+  by_cases hcd : δ < norm2 (c 0)
+  · have hn : norm2 (c 0) ≠ 0 := (lt_trans hδ hcd).ne'
+    simp only [hcd, if_true, Cx.smul_re, Cx.smul_im, Cx.divr_re, Cx.divr_im, Cx.conj_re, Cx.conj_im]
     field_simp
     ring
-  · simp only [hc, if_false, Cx.conj_re, Cx.conj_im]
+  · simp only [hcd, if_false, Cx.conj_re, Cx.conj_im]
     ring
 
 /-- the formula of the code before the repair agrees with it away from the origin -/
@@ -355,70 +432,102 @@ theorem huberNonsepOld_eq (δ : ℝ) (x : CVec ℝ n) (hx : sumAbs2 x ≠ 0) :
   · simp only [hc, if_false]
     apply Cx.ext' <;> simp <;> field_simp
 
-theorem contract_l21 {k : Nat} (grp : Fin n → Fin k) (x : CVec ℝ n) (hx : ∀ g, groupAbs2 grp x g ≠ 0) :
-    JaxContract (Fn.l21 k grp : Fn ℝ n).eval x ((Fn.l21 k grp : Fn ℝ n).jaxGrad x) := by
-  intro d
+theorem l2normGuarded_eq (s : ℝ) (hs : 0 ≤ s) : l2normGuarded s = Real.sqrt s := by
+  unfold l2normGuarded
+  by_cases h : 0 < s
+  · simp [h, hasSqrt_real]
+  · have : s = 0 := le_antisymm (not_lt.mp h) hs
+    simp [this]
+
+/-- `L21Norm` with the guarded `_l2norm`: every group is either non-zero at `c 0`, or identically
+    zero along the curve (then it contributes the constant 0 and the gradient entries are 0) -/
+theorem deriv_l21 {k : Nat} (grp : Fin n → Fin k) {c : ℝ → CVec ℝ n} {d : CVec ℝ n} (hc : Tangent c d)
+    (hx : ∀ g, groupAbs2 grp (c 0) g ≠ 0 ∨ ∀ t, groupAbs2 grp (c t) g = 0) :
+    DerivOn (Fn.l21 k grp : Fn ℝ n).eval (Fn.l21 k grp : Fn ℝ n).jaxGrad c d := by
+  unfold DerivOn
   simp only [Fn.eval, Fn.jaxGrad, vsum_eq]
-  have hg : ∀ g : Fin k, HasDerivAt (fun t : ℝ => Real.sqrt (groupAbs2 grp (along x d t) g))
-      ((∑ i, if grp i = g then 2 * ((x i).re * (d i).re + (x i).im * (d i).im) else 0)
-        / (2 * Real.sqrt (groupAbs2 grp x g))) 0 := by
+  have hg : ∀ g : Fin k, HasDerivAt (fun t : ℝ => l2normGuarded (groupAbs2 grp (c t) g))
+      (if 0 < groupAbs2 grp (c 0) g then
+        (∑ i, if grp i = g then 2 * ((c 0 i).re * (d i).re + (c 0 i).im * (d i).im) else 0)
+          / (2 * Real.sqrt (groupAbs2 grp (c 0) g)) else 0) 0 := by
     intro g
-    have h := (hasDerivAt_groupAbs2 grp x d g).sqrt (by rw [along_zero]; exact hx g)
-    rw [along_zero] at h
-    exact h
+    rcases hx g with hne | hz
+    · have hpos : 0 < groupAbs2 grp (c 0) g := lt_of_le_of_ne (groupAbs2_nonneg _ _ _) (Ne.symm hne)
+      rw [if_pos hpos]
+      have h := (hasDerivAt_groupAbs2 grp hc g).sqrt hne
+      exact HasDerivAt.congr' h (fun t => l2normGuarded_eq _ (groupAbs2_nonneg _ _ _)) rfl
+    · rw [if_neg (by rw [hz 0]; exact lt_irrefl _)]
+      have : (fun t : ℝ => l2normGuarded (groupAbs2 grp (c t) g)) = fun _ => 0 := by
+        funext t; rw [hz t]; simp [l2normGuarded]
+      rw [this]
+      exact hasDerivAt_const _ _
   refine HasDerivAt.congr' (HasDerivAt.fun_sum (fun g _ => hg g)) (fun _ => rfl) ?_
   rw [reBdot_eq]
-  simp only [Finset.sum_div]
+  have hsum : ∀ g : Fin k, (if 0 < groupAbs2 grp (c 0) g then
+        (∑ i, if grp i = g then 2 * ((c 0 i).re * (d i).re + (c 0 i).im * (d i).im) else 0)
+          / (2 * Real.sqrt (groupAbs2 grp (c 0) g)) else 0) =
+      ∑ i, if grp i = g then (if 0 < groupAbs2 grp (c 0) g then
+        2 * ((c 0 i).re * (d i).re + (c 0 i).im * (d i).im) / (2 * Real.sqrt (groupAbs2 grp (c 0) g))
+        else 0) else 0 := by
+    intro g
+    by_cases hp : 0 < groupAbs2 grp (c 0) g
+    · simp only [hp, if_true, Finset.sum_div]
+      exact Finset.sum_congr rfl (fun i _ => by split <;> simp)
+    · simp [hp]
+  simp only [hsum]
   rw [Finset.sum_comm]
   refine Finset.sum_congr rfl (fun i _ => ?_)
   rw [Finset.sum_eq_single (grp i)]
-  · simp only [if_true, Cx.divr_re, Cx.divr_im, Cx.conj_re, Cx.conj_im, hasSqrt_real]
-    exact (coord_div _ _ _ _ _).symm
+  · simp only [if_true]
+    by_cases hp : 0 < groupAbs2 grp (c 0) (grp i)
+    · simp only [hp, if_true, Cx.divr_re, Cx.divr_im, Cx.conj_re, Cx.conj_im, hasSqrt_real]
+      exact (coord_div _ _ _ _ _).symm
+    · simp [hp]
   · intro g _ hne
     simp [Ne.symm hne]
   · intro h; exact absurd (Finset.mem_univ _) h
 
-theorem contract_sqL2Loss (s : ℝ) (A : Mat ℝ m n) (y : CVec ℝ m) (w : Vec ℝ m) (x : CVec ℝ n) :
-    JaxContract (Fn.sqL2Loss s A y w).eval x ((Fn.sqL2Loss s A y w).jaxGrad x) := by
-  intro d
-  simp only [Fn.eval, Fn.jaxGrad, vsum_eq]
-  have hi : ∀ i : Fin m, HasDerivAt (fun t : ℝ => w i * Cx.abs2 (y i - mulVec A (along x d t) i))
-      (w i * (2 * ((y i - mulVec A x i).re * (-(mulVec A d i)).re
-                    + (y i - mulVec A x i).im * (-(mulVec A d i)).im))) 0 := by
+
+/-! ### losses with their own `__call__` -/
+
+/-- `Σ wᵢ |yᵢ − zᵢ(t)|²` along a curve `z` with velocity `e` -/
+theorem hasDerivAt_wsq {z : ℝ → CVec ℝ m} {e : CVec ℝ m} (hz : Tangent z e) (y : CVec ℝ m) (w : Vec ℝ m) :
+    HasDerivAt (fun t : ℝ => ∑ i, w i * Cx.abs2 (y i - z t i))
+      (reBdot (fun i => Cx.smul (two * w i) (z 0 i - y i).conj) e) 0 := by
+  have hi : ∀ i : Fin m, HasDerivAt (fun t : ℝ => w i * Cx.abs2 (y i - z t i))
+      (w i * (2 * ((y i - z 0 i).re * (-(e i)).re + (y i - z 0 i).im * (-(e i)).im))) 0 := by
     intro i
-    have h := (hasDerivAt_abs2 (y i - mulVec A x i) (-(mulVec A d i))).const_mul (w i)
-    refine HasDerivAt.congr' h (fun t => ?_) rfl
-    have e : y i - mulVec A (along x d t) i = (y i - mulVec A x i) + Cx.smul t (-(mulVec A d i)) := by
-      rw [mulVec_along]
-      apply Cx.ext' <;> simp [along] <;> ring
-    rw [e]
-  have h := (HasDerivAt.fun_sum (u := Finset.univ) (fun i _ => hi i)).const_mul s
-  refine HasDerivAt.congr' h (fun _ => rfl) ?_
-  rw [reBdot_vsmul_left, reBdot_transpose, reBdot_eq]
-  congr 1
+    have h1 : CTangent (fun t => y i - z t i) (-(e i)) :=
+      ((CTangent.const (y i)).sub (hz i)).congr (fun _ => rfl) (by apply Cx.ext' <;> simp)
+    exact h1.abs2.const_mul (w i)
+  refine HasDerivAt.congr' (HasDerivAt.fun_sum (u := Finset.univ) (fun i _ => hi i)) (fun _ => rfl) ?_
+  rw [reBdot_eq]
   refine Finset.sum_congr rfl (fun i _ => ?_)
   simp [two_eq]; ring
 
-theorem contract_sqL2SqAbsLoss (s : ℝ) (A : Mat ℝ m n) (y : Vec ℝ m) (w : Vec ℝ m) (x : CVec ℝ n) :
-    JaxContract (Fn.sqL2SqAbsLoss s A y w).eval x ((Fn.sqL2SqAbsLoss s A y w).jaxGrad x) := by
-  intro d
+theorem deriv_sqL2Loss (s : ℝ) (A : Mat ℝ m n) (y : CVec ℝ m) (w : Vec ℝ m) {c : ℝ → CVec ℝ n}
+    {d : CVec ℝ n} (hc : Tangent c d) :
+    DerivOn (Fn.sqL2Loss s A y w).eval (Fn.sqL2Loss s A y w).jaxGrad c d := by
+  unfold DerivOn
   simp only [Fn.eval, Fn.jaxGrad, vsum_eq]
+  have h := (hasDerivAt_wsq (tangent_mulVec A hc) y w).const_mul s
+  refine HasDerivAt.congr' h (fun _ => rfl) ?_
+  rw [reBdot_vsmul_left, reBdot_transpose]
+
+theorem deriv_sqL2SqAbsLoss (s : ℝ) (A : Mat ℝ m n) (y : Vec ℝ m) (w : Vec ℝ m) {c : ℝ → CVec ℝ n}
+    {d : CVec ℝ n} (hc : Tangent c d) :
+    DerivOn (Fn.sqL2SqAbsLoss s A y w).eval (Fn.sqL2SqAbsLoss s A y w).jaxGrad c d := by
+  unfold DerivOn
+  simp only [Fn.eval, Fn.jaxGrad, vsum_eq]
+  have hA := tangent_mulVec A hc
   have hi : ∀ i : Fin m, HasDerivAt
-      (fun t : ℝ => w i * ((y i - Cx.abs2 (mulVec A (along x d t) i)) * (y i - Cx.abs2 (mulVec A (along x d t) i))))
-      (w i * (2 * (y i - Cx.abs2 (mulVec A x i)) *
-        (-(2 * ((mulVec A x i).re * (mulVec A d i).re + (mulVec A x i).im * (mulVec A d i).im))))) 0 := by
+      (fun t : ℝ => w i * ((y i - Cx.abs2 (mulVec A (c t) i)) * (y i - Cx.abs2 (mulVec A (c t) i))))
+      (w i * (2 * (y i - Cx.abs2 (mulVec A (c 0) i)) *
+        (-(2 * ((mulVec A (c 0) i).re * (mulVec A d i).re + (mulVec A (c 0) i).im * (mulVec A d i).im))))) 0 := by
     intro i
-    have ha : HasDerivAt (fun t : ℝ => Cx.abs2 (mulVec A (along x d t) i))
-        (2 * ((mulVec A x i).re * (mulVec A d i).re + (mulVec A x i).im * (mulVec A d i).im)) 0 := by
-      have h := hasDerivAt_abs2 (mulVec A x i) (mulVec A d i)
-      refine HasDerivAt.congr' h (fun t => ?_) rfl
-      rw [mulVec_along]
-      rfl
-    have hb := ha.const_sub (y i)
-    have hc := (hb.mul hb).const_mul (w i)
-    refine HasDerivAt.congr' hc (fun _ => rfl) ?_
-    have h0 : mulVec A (along x d 0) = mulVec A x := by rw [along_zero]
-    simp only [h0]
+    have hb := (hA i).abs2.const_sub (y i)
+    have hc' := (hb.mul hb).const_mul (w i)
+    refine HasDerivAt.congr' hc' (fun _ => rfl) ?_
     ring
   have h := (HasDerivAt.fun_sum (u := Finset.univ) (fun i _ => hi i)).const_mul s
   refine HasDerivAt.congr' h (fun _ => rfl) ?_
@@ -427,80 +536,185 @@ theorem contract_sqL2SqAbsLoss (s : ℝ) (A : Mat ℝ m n) (y : Vec ℝ m) (w : 
   refine Finset.sum_congr rfl (fun i _ => ?_)
   simp [two_eq]; ring
 
+/-- `SquaredL2AbsLoss`, where no entry of `A x` vanishes -/
+theorem deriv_sqL2AbsLoss (s : ℝ) (A : Mat ℝ m n) (y : Vec ℝ m) (w : Vec ℝ m) {c : ℝ → CVec ℝ n}
+    {d : CVec ℝ n} (hc : Tangent c d) (hx : ∀ i, Cx.abs2 (mulVec A (c 0) i) ≠ 0) :
+    DerivOn (Fn.sqL2AbsLoss s A y w).eval (Fn.sqL2AbsLoss s A y w).jaxGrad c d := by
+  unfold DerivOn
+  simp only [Fn.eval, Fn.jaxGrad, vsum_eq]
+  have hA := tangent_mulVec A hc
+  have hi : ∀ i : Fin m, HasDerivAt
+      (fun t : ℝ => w i * ((y i - Cx.abs (mulVec A (c t) i)) * (y i - Cx.abs (mulVec A (c t) i))))
+      (w i * (2 * (y i - Cx.abs (mulVec A (c 0) i)) *
+        (-((2 * ((mulVec A (c 0) i).re * (mulVec A d i).re + (mulVec A (c 0) i).im * (mulVec A d i).im))
+            / (2 * Cx.abs (mulVec A (c 0) i)))))) 0 := by
+    intro i
+    have ha : HasDerivAt (fun t : ℝ => Cx.abs (mulVec A (c t) i))
+        ((2 * ((mulVec A (c 0) i).re * (mulVec A d i).re + (mulVec A (c 0) i).im * (mulVec A d i).im))
+            / (2 * Cx.abs (mulVec A (c 0) i))) 0 := (hA i).abs2.sqrt (hx i)
+    have hb := ha.const_sub (y i)
+    have hc' := (hb.mul hb).const_mul (w i)
+    refine HasDerivAt.congr' hc' (fun _ => rfl) ?_
+    ring
+  have h := (HasDerivAt.fun_sum (u := Finset.univ) (fun i _ => hi i)).const_mul s
+  refine HasDerivAt.congr' h (fun _ => rfl) ?_
+  rw [reBdot_vsmul_left, reBdot_transpose, reBdot_eq]
+  congr 1
+  refine Finset.sum_congr rfl (fun i _ => ?_)
+  have hne : Cx.abs (mulVec A (c 0) i) ≠ 0 := by
+    unfold Cx.abs; rw [hasSqrt_real]
+    exact (Real.sqrt_ne_zero (abs2_nonneg _)).mpr (hx i)
+  simp only [Cx.smul_re, Cx.smul_im, Cx.divr_re, Cx.divr_im, Cx.conj_re, Cx.conj_im, two_eq]
+  field_simp
+  ring
+
+/-- `PoissonLoss`, where every entry of `A x` is positive -/
+theorem deriv_poisson (s : ℝ) (A : Mat ℝ m n) (y cst : Vec ℝ m) {c : ℝ → CVec ℝ n}
+    {d : CVec ℝ n} (hc : Tangent c d) (hx : ∀ i, 0 < (mulVec A (c 0) i).re) :
+    DerivOn (Fn.poisson s A y cst).eval (Fn.poisson s A y cst).jaxGrad c d := by
+  unfold DerivOn
+  simp only [Fn.eval, Fn.jaxGrad, vsum_eq, hasLog_real]
+  have hA := tangent_mulVec A hc
+  have hi : ∀ i : Fin m, HasDerivAt
+      (fun t : ℝ => (mulVec A (c t) i).re - y i * Real.log (mulVec A (c t) i).re + cst i)
+      ((mulVec A d i).re - y i * ((mulVec A d i).re / (mulVec A (c 0) i).re)) 0 := by
+    intro i
+    have hr := (hA i).1
+    have hl := (hr.log (hx i).ne').const_mul (y i)
+    exact (hr.sub hl).add_const (cst i)
+  have h := (HasDerivAt.fun_sum (u := Finset.univ) (fun i _ => hi i)).const_mul s
+  refine HasDerivAt.congr' h (fun _ => rfl) ?_
+  rw [reBdot_vsmul_left, reBdot_transpose, reBdot_eq]
+  congr 1
+  refine Finset.sum_congr rfl (fun i _ => ?_)
+  have hne : (mulVec A (c 0) i).re ≠ 0 := (hx i).ne'
+  simp only [Cx.ofReal_re, Cx.ofReal_im]
+  field_simp
+  ring
+
+/-! ### the operator family: transposition contract of `Op.vjpT` -/
+
+/-- `Op.vjpT` is the transpose of `Op.jvp` for the pairing `Re Σ aᵢ bᵢ` — JAX's `vjp` contract, here a
+    theorem about the transcribed formulas -/
+theorem op_vjpT_transpose (F : Op ℝ n m) (u : CVec ℝ n) (cc : CVec ℝ m) (d : CVec ℝ n) :
+    reBdot (F.vjpT u cc) d = reBdot cc (F.jvp u d) := by
+  have h1 := reBdot_transpose F.A cc d
+  have h2 := reBdot_transpose F.B cc (conjVec d)
+  have h3 := reBdot_transpose F.C (fun i => (mulVec F.C u i + mulVec F.C u i) * cc i) d
+  rw [reBdot_eq] at h1 h2 h3 ⊢
+  rw [reBdot_eq] at h1 h2 h3 ⊢
+  have e1 : ∑ i, ((F.vjpT u cc i).re * (d i).re - (F.vjpT u cc i).im * (d i).im) =
+      ∑ i, ((mulVec (transpose F.A) cc i).re * (d i).re - (mulVec (transpose F.A) cc i).im * (d i).im)
+      + ∑ i, ((mulVec (transpose F.B) cc i).re * (conjVec d i).re - (mulVec (transpose F.B) cc i).im * (conjVec d i).im)
+      + ∑ i, ((mulVec (transpose F.C) (fun i => (mulVec F.C u i + mulVec F.C u i) * cc i) i).re * (d i).re
+              - (mulVec (transpose F.C) (fun i => (mulVec F.C u i + mulVec F.C u i) * cc i) i).im * (d i).im) := by
+    rw [← Finset.sum_add_distrib, ← Finset.sum_add_distrib]
+    refine Finset.sum_congr rfl (fun i _ => ?_)
+    simp [Op.vjpT, conjVec]; ring
+  rw [e1, h1, h2, h3, ← Finset.sum_add_distrib, ← Finset.sum_add_distrib]
+  refine Finset.sum_congr rfl (fun i _ => ?_)
+  simp [Op.jvp]; ring
+
 /-! ### combinators -/
 
-theorem contract_scaled (c : ℝ) (f : CVec ℝ n → ℝ) (x jg : CVec ℝ n) (h : JaxContract f x jg) :
-    JaxContract (fun z => c * f z) x (vsmul c jg) := by
-  intro d
+theorem hasDeriv_scaled (a : ℝ) {f : ℝ → ℝ} {jg d : CVec ℝ n} (h : HasDerivAt f (reBdot jg d) 0) :
+    HasDerivAt (fun t => a * f t) (reBdot (vsmul a jg) d) 0 := by
   rw [reBdot_vsmul_left]
-  exact (h d).const_mul c
-
-theorem contract_add (f g : CVec ℝ n → ℝ) (x jf jg : CVec ℝ n) (hf : JaxContract f x jf)
-    (hg : JaxContract g x jg) : JaxContract (fun z => f z + g z) x (vadd jf jg) := by
-  intro d
-  rw [reBdot_vadd_left]
-  exact (hf d).add (hg d)
-
-theorem contract_sep (f : CVec ℝ n → ℝ) (g : CVec ℝ k → ℝ) (x : CVec ℝ (n + k)) (jf : CVec ℝ n)
-    (jg : CVec ℝ k) (hf : JaxContract f (vleft x) jf) (hg : JaxContract g (vright x) jg) :
-    JaxContract (fun z => f (vleft z) + g (vright z)) x (vappend jf jg) := by
-  intro d
-  rw [reBdot_split, vleft_vappend, vright_vappend]
-  exact (hf (vleft d)).add (hg (vright d))
-
-/-- chain rule through an affine operator `x ↦ A x − y`: JAX pulls the cotangent back with the
-    plain transpose -/
-theorem contract_affine (s : ℝ) (A : Mat ℝ m n) (y : CVec ℝ m) (f : CVec ℝ m → ℝ) (x : CVec ℝ n)
-    (jg : CVec ℝ m) (h : JaxContract f (vsub (mulVec A x) y) jg) :
-    JaxContract (fun z => s * f (vsub (mulVec A z) y)) x (vsmul s (mulVec (transpose A) jg)) := by
-  intro d
-  rw [reBdot_vsmul_left, reBdot_transpose]
-  have h1 := (h (mulVec A d)).const_mul s
-  refine HasDerivAt.congr' h1 (fun t => ?_) rfl
-  have e : vsub (mulVec A (along x d t)) y = along (vsub (mulVec A x) y) (mulVec A d) t := by
-    rw [mulVec_along]
-    funext i
-    apply Cx.ext' <;> simp [vsub, along] <;> ring
-  show s * f (vsub (mulVec A (along x d t)) y) = s * f (along (vsub (mulVec A x) y) (mulVec A d) t)
-  rw [e]
+  exact h.const_mul a
 
 /-! ### the induction -/
 
-/-- **Every** functional expression: JAX's rules satisfy JAX's contract on the smoothness domain. -/
-theorem Fn.jaxContract : ∀ {n : Nat} (f : Fn ℝ n) (x : CVec ℝ n), f.Smooth x →
-    JaxContract f.eval x (f.jaxGrad x) := by
+/-- **Every** functional expression, along **every** curve on which it is smooth: JAX's rules
+    (`Fn.jaxGrad` at `c 0`) give the derivative of `t ↦ f(c t)` at `0`. -/
+theorem Fn.derivOn : ∀ {n : Nat} (f : Fn ℝ n) (c : ℝ → CVec ℝ n) (d : CVec ℝ n), Tangent c d →
+    f.SmoothOn c → DerivOn f.eval f.jaxGrad c d := by
   intro n f
   induction f with
-  | zero => intro x _; exact contract_zero x
-  | sqL2 => intro x _; exact contract_sqL2 x
-  | l2 => intro x h; exact contract_l2 x h
-  | l1 => intro x h; exact contract_l1 x h
+  | zero => intro c d _ _; exact deriv_zero
+  | sqL2 => intro c d hc _; exact deriv_sqL2 hc
+  | l2 => intro c d hc h; exact deriv_l2 hc h
+  | l1 => intro c d hc h; exact deriv_l1 hc h
   | huber δ sep =>
-    intro x h
+    intro c d hc h
     cases sep with
-    | true => exact contract_huber_sep δ h x
-    | false => exact contract_huber_nonsep δ h x
-  | l1ml2 β => intro x h; exact contract_l1ml2 β x h.1 h.2
-  | l21 k grp => intro x h; exact contract_l21 grp x h
-  | scaled c f ih =>
-    intro x h
-    exact contract_scaled c f.eval x (f.jaxGrad x) (ih x h)
+    | true => exact deriv_huber_sep δ h hc
+    | false => exact deriv_huber_nonsep δ h hc
+  | l1ml2 β => intro c d hc h; exact deriv_l1ml2 β hc h.1 h.2
+  | l21 k grp => intro c d hc h; exact deriv_l21 grp hc h
+  | scaled a f ih =>
+    intro c d hc h
+    exact hasDeriv_scaled a (ih c d hc h)
   | add f g ihf ihg =>
-    intro x h
-    exact contract_add f.eval g.eval x _ _ (ihf x h.1) (ihg x h.2)
+    intro c d hc h
+    unfold DerivOn
+    simp only [Fn.eval, Fn.jaxGrad]
+    rw [reBdot_vadd_left]
+    exact (ihf c d hc h.1).add (ihg c d hc h.2)
   | sep f g ihf ihg =>
-    intro x h
-    exact contract_sep f.eval g.eval x _ _ (ihf _ h.1) (ihg _ h.2)
+    intro c d hc h
+    unfold DerivOn
+    simp only [Fn.eval, Fn.jaxGrad]
+    rw [reBdot_split, vleft_vappend, vright_vappend]
+    exact (ihf _ _ (tangent_vleft hc) h.1).add (ihg _ _ (tangent_vright hc) h.2)
   | loss s A y f ih =>
-    intro x h
-    exact contract_affine s A y f.eval x _ (ih _ h)
-  | sqL2Loss s A y w => intro x _; exact contract_sqL2Loss s A y w x
-  | sqL2SqAbsLoss s A y w => intro x _; exact contract_sqL2SqAbsLoss s A y w x
+    intro c d hc h
+    unfold DerivOn
+    simp only [Fn.eval, Fn.jaxGrad]
+    rw [reBdot_vsmul_left, reBdot_transpose]
+    exact (ih _ _ (tangent_vsub_const (tangent_mulVec A hc) y) h).const_mul s
+  | sqL2Loss s A y w => intro c d hc _; exact deriv_sqL2Loss s A y w hc
+  | sqL2SqAbsLoss s A y w => intro c d hc _; exact deriv_sqL2SqAbsLoss s A y w hc
+  | sqL2AbsLoss s A y w => intro c d hc h; exact deriv_sqL2AbsLoss s A y w hc h
+  | poisson s A y cst => intro c d hc h; exact deriv_poisson s A y cst hc h
+  | lossOp s F y f ih =>
+    intro c d hc h
+    unfold DerivOn
+    simp only [Fn.eval, Fn.jaxGrad]
+    rw [reBdot_vsmul_left, op_vjpT_transpose]
+    exact (ih _ _ (tangent_vsub_const (tangent_op F hc) y) h).const_mul s
+  | sqL2LossOp s F y w =>
+    intro c d hc _
+    unfold DerivOn
+    simp only [Fn.eval, Fn.jaxGrad, vsum_eq]
+    rw [reBdot_vsmul_left, op_vjpT_transpose]
+    exact (hasDerivAt_wsq (tangent_op F hc) y w).const_mul s
+
+/-- on the pointwise smoothness domain: the contract along every curve through `x` -/
+theorem Fn.curveContract {n : Nat} (f : Fn ℝ n) (x : CVec ℝ n) (h : f.Smooth x) :
+    CurveContract f.eval x (f.jaxGrad x) := by
+  intro c d h0 hc
+  have := f.derivOn c d hc (f.smoothOn_of_smooth c (by rw [h0]; exact h))
+  unfold DerivOn at this
+  rwa [h0] at this
+
+/-- **Every** functional expression: JAX's rules satisfy JAX's contract on the smoothness domain. -/
+theorem Fn.jaxContract {n : Nat} (f : Fn ℝ n) (x : CVec ℝ n) (h : f.Smooth x) :
+    JaxContract f.eval x (f.jaxGrad x) :=
+  (f.curveContract x h).jaxContract
 
 /-- hence `f.grad(x)` is the gradient in the sense of C07 -/
 theorem Fn.isGradAt {n : Nat} (f : Fn ℝ n) (x : CVec ℝ n) (h : f.Smooth x) :
     IsGradAt f.eval x (f.grad x) :=
   conj_grad f.eval x (f.jaxGrad x) (f.jaxContract x h)
+
+/-- and along every differentiable curve through `x` -/
+theorem Fn.isCurveGradAt {n : Nat} (f : Fn ℝ n) (x : CVec ℝ n) (h : f.Smooth x) :
+    IsCurveGradAt f.eval x (f.grad x) :=
+  conj_grad_curve f.eval x (f.jaxGrad x) (f.curveContract x h)
+
+/-- smooth along every *line* through `x` (weaker than `Smooth x`: structural zero groups allowed) -/
+def Fn.SmoothLines {n : Nat} (f : Fn ℝ n) (x : CVec ℝ n) : Prop :=
+  ∀ d : CVec ℝ n, f.SmoothOn (fun t => along x d t)
+
+theorem Fn.isGradAt_of_lines {n : Nat} (f : Fn ℝ n) (x : CVec ℝ n) (h : f.SmoothLines x) :
+    IsGradAt f.eval x (f.grad x) := by
+  intro d
+  have := f.derivOn (fun t => along x d t) d (tangent_along x d) (h d)
+  unfold DerivOn at this
+  simp only [along_zero] at this
+  unfold Fn.grad scicoGrad
+  rw [reInner_conjVec]
+  exact this
 
 /-! ### block arguments: the blocks of the gradient are the partial gradients -/
 
